@@ -270,6 +270,17 @@ func (bn *baseNode) checkPermission(perm avfs.OpenMode, u avfs.UserReader) bool 
 	return mode&perm == perm
 }
 
+// dropSetId clears the set-user-ID bit of the node, and its set-group-ID bit if the group-execute bit is set
+// or if the user u is neither an administrator nor a member of the group of the node.
+// Linux does it when the owner of a file is changed and when a file is written or truncated.
+func (bn *baseNode) dropSetId(u avfs.UserReader) {
+	if bn.mode&0o010 != 0 || (!u.IsAdmin() && bn.gid != u.Gid()) {
+		bn.mode &^= fs.ModeSetgid
+	}
+
+	bn.mode &^= fs.ModeSetuid
+}
+
 // Lock locks the node.
 func (bn *baseNode) Lock() {
 	bn.mu.Lock()
@@ -287,7 +298,14 @@ func (bn *baseNode) setModTime(mtime time.Time, u avfs.UserReader) bool {
 }
 
 // setOwner sets the owner of the node.
-func (bn *baseNode) setOwner(uid, gid int) {
+// As chown(2), it clears the set-user-ID and set-group-ID bits of a node that is not a directory.
+func (bn *baseNode) setOwner(uid, gid int, u avfs.UserReader) {
+	bn.dropSetId(u)
+	bn.setIds(uid, gid)
+}
+
+// setIds sets the user id and the group id of the node.
+func (bn *baseNode) setIds(uid, gid int) {
 	// A uid or gid of -1 means to not change that value.
 	if uid != -1 {
 		bn.uid = uid
@@ -363,6 +381,11 @@ func (dn *dirNode) dirEntries() []fs.DirEntry {
 	return entries
 }
 
+// setOwner sets the owner of the directory node.
+func (dn *dirNode) setOwner(uid, gid int, _ avfs.UserReader) {
+	dn.setIds(uid, gid)
+}
+
 // setMode sets the permissions of the directory node.
 func (dn *dirNode) setMode(mode fs.FileMode, u avfs.UserReader) bool {
 	if dn.uid != u.Uid() && !u.IsAdmin() {
@@ -412,6 +435,14 @@ func (fn *fileNode) fillStatFrom(name string) *MemInfo {
 	fn.mu.RUnlock()
 
 	return fst
+}
+
+// removePrivs clears the set-user-ID and set-group-ID bits of the file node
+// when it is written or truncated by a user who is not an administrator, as Linux does.
+func (fn *fileNode) removePrivs(u avfs.UserReader) {
+	if !u.IsAdmin() {
+		fn.dropSetId(u)
+	}
 }
 
 // setMode sets the permissions of the file node.
